@@ -123,16 +123,18 @@ def analyzer_bytes(g):
     ml = max([1] + [len(r.rhs) for r in g.rules]); ss = ml + 1
     addr = rc * ss * tc
     cap = (sum(len(r.rhs) + 1 for r in g.rules)) * tc + 2
-    sv = cap * 4 + 8
+    icap = cap
+    if getattr(g, 'limits', None): cap, icap = g.limits
+    sv = icap * 4 + 8
     state = sv + addr // 8 + (tc + nc) * sv
     return cap * state + addr * sv
 
 def emit_tu(grammars, runtime_ctor=(), limits=None):
     # run-time construction is only attempted where the analyser fits on a (raised) stack
-    runtime_ctor = {gi for gi in runtime_ctor if gi < len(grammars) and analyzer_bytes(grammars[gi]) < 300 * 1024 * 1024}
+    runtime_ctor = {gi for gi in runtime_ctor if gi < len(grammars) and analyzer_bytes(grammars[gi]) < 300 * 1024 * 1024} | {gi for gi, g in enumerate(grammars) if getattr(g, 'rt', False)}
     o = ['#include "vf_driver.hpp"', 'using namespace ctpg; using namespace ctpg::buffers; using namespace ctpg::ftors;']
     for gi, g in enumerate(grammars):
-        o.append(emit_one(g, gi, runtime_ctor=(gi in runtime_ctor), limits=(limits or {}).get(gi)))
+        o.append(emit_one(g, gi, runtime_ctor=(gi in runtime_ctor), limits=((limits or {}).get(gi) or getattr(g, 'limits', None))))
     o.append('static void dispatch(int gi, long idx, int mode, const std::string& in) {')
     o.append('  switch (gi) {')
     for gi in range(len(grammars)):
